@@ -3,7 +3,9 @@
   C09.R1  every node name that reaches the networkx graph during construction (any call on the graph object, membership, subscripts)
           has passed a truncation that was *verified* by C09.R3 - found by data flow from the constructor's module list and from the
           accessors of `Import`, never by the name of a helper
-  C09.R2  every edge insertion is guarded by `start != end` on exactly the (flattened) values that are inserted
+  C09.R2  every edge insertion is guarded by `start != end` on exactly the (flattened) values that are inserted; any other test of the
+          construction code that depends on the limit and decides about a pair of names is tabulated and must be 'both flatten to the
+          same node' (or its negation) - not a string-prefix relation
   C09.R3  whatever turns a raw name into a graph node (method, module-level function, functools.partial, lambda, conditional
           expression) is tabulated over a finite table of names and limits: identity without a limit, the first limit+1 dotted
           components otherwise; it keeps no state shared between graphs
@@ -1029,7 +1031,7 @@ def run(repo: Repo) -> Result:
     res.explanation = (
         "Decides the flattening mechanism: (R1) by data flow from the constructor's module list and the Import accessors, every node name "
         "reaching the networkx graph during construction has passed a truncation; (R2) every edge insertion is guarded by a test that the two "
-        "(flattened) ends differ; (R3) that truncation - whatever its spelling: method, function, partial, lambda - is tabulated over a finite "
+        "(flattened) ends differ, and every other limit-dependent test on a pair of names is (tabulated) the same-node test; (R3) that truncation - whatever its spelling: method, function, partial, lambda - is tabulated over a finite "
         "table of names and limits and equals 'first limit+1 dotted components', identity without a limit, and shares no state between graphs; "
         "(R4) tabulated from get_evaluable_architecture down to the constructor call, the graph receives the user's limit plus the number of "
         "levels between root_path and module_path, None stays None; (R5) the limit does not act on the scanned modules / imports in any other way."
